@@ -1,4 +1,4 @@
-(* LogDB/ProofsSync.v — the startup re-sync (cmd/thor/sync_logdb.go, model only) re-establishes the C15 invariant:
+(* LogDB/ProofsSync.v — the startup re-sync (cmd/thor/sync_logdb.go; tied to the real functions by the C15 harness through the cmd/thor test-binary hook) re-establishes the C15 invariant:
    if the tables are the canonical tables of ANY stored block x (the best block at the time logs were last written:
    an ancestor of the current best, a descendant, or a block of an abandoned branch), then after sync_logdb they are
    the canonical tables of the current best block. *)
